@@ -161,7 +161,7 @@ func c12Run(w *core.W) {
 	}
 	g := &gen.Grammar{
 		Leaves: []T{I(1), I(2), F(1.5), B(true), S("ab"), L(I(1), I(2)), N("gi"), N("u")},
-		BinOps: []string{"+", "-", "/", "%", "<", "==", "&"}, UnOps: allUnOps, Calls: []string{"id"}, Index: true, Lists: true,
+		BinOps: []string{"+", "-", "/", "%", "<", "==", "&"}, UnOps: allUnOps, Calls: []string{"id", "ar"}, Index: true, Slice: true, Lists: true,
 	}
 	maxN := 3
 	if w.Thorough() {
@@ -186,6 +186,9 @@ func c12Run(w *core.W) {
 				emit("e/t=e;t", "full-unless-nil", top, []T{Blk(Asg("t", e), N("t"))}) &&
 				emit("e op e/t op t", "full", []T{Bin("+", e, e)}, []T{Blk(Asg("t", e), Bin("+", N("t"), N("t")))}) &&
 				emit("e == e/t == t", "full", []T{Bin("==", e, e)}, []T{Blk(Asg("t", e), Bin("==", N("t"), N("t")))}) &&
+				emit("compound-left + e", "full", []T{Bin("+", Bin("*", I(2), I(3)), e)}, []T{Blk(Asg("t", e), Bin("+", Bin("*", I(2), I(3)), N("t")))}) &&
+				emit("compound-left array + e", "full", []T{Bin("+", Bin("+", L(I(9)), L(I(8))), e)}, []T{Blk(Asg("t", e), Bin("+", Bin("+", L(I(9)), L(I(8))), N("t")))}) &&
+				emit("compound-left + [..e..]", "full", []T{Bin("+", Bin("*", I(2), I(3)), Un("#", Ix2(S("wxyz"), I(0), e)))}, []T{Blk(Asg("t", e), Bin("+", Bin("*", I(2), I(3)), Un("#", Ix2(S("wxyz"), I(0), N("t")))))}) &&
 				emit("(e op e) depth1", "full", []T{Bin("*", Bin("-", e, e), I(1))}, []T{Blk(Asg("t", e), Asg("v", Bin("-", N("t"), N("t"))), Bin("*", N("v"), I(1)))})
 			if !r {
 				return false
@@ -222,6 +225,15 @@ func c12Run(w *core.W) {
 			emit("x=x+1 used/discarded (global)", "full", top(Asg("x", Bin("+", N("x"), I(1)))), top(Blk(Asg("x", Bin("+", N("x"), I(1))), N("x")))) &&
 			emit("x=x+1/x=1+x (param)", "full", []T{Asg("f", Fn(Ps("x"), Blk(Asg("x", Bin("+", N("x"), I(1))), N("x")))), Call("f", v)}, []T{Asg("f", Fn(Ps("x"), Blk(Asg("x", Bin("+", I(1), N("x"))), N("x")))), Call("f", v)}) &&
 			emit("x=x+1/t=x;x=t+1 (param)", "full", []T{Asg("f", Fn(Ps("x"), Blk(Asg("x", Bin("+", N("x"), I(1))), N("x")))), Call("f", v)}, []T{Asg("f", Fn(Ps("x"), Blk(Asg("t", N("x")), Asg("x", Bin("+", N("t"), I(1))), N("x")))), Call("f", v)}) &&
+			emit("x=x+1/t=x;x=t+1 (function shadowing a global)", "full",
+				top(Asg("f", Fn(P, Blk(Asg("x", Bin("+", N("x"), I(1))), N("x")))), Call("f")),
+				top(Asg("f", Fn(P, Blk(Asg("t", N("x")), Asg("x", Bin("+", N("t"), I(1))), N("x")))), Call("f"))) &&
+			emit("x=1+x/t=x;x=1+t (function shadowing a global)", "full",
+				top(Asg("f", Fn(P, Blk(Asg("x", Bin("+", I(1), N("x"))), N("x")))), Call("f")),
+				top(Asg("f", Fn(P, Blk(Asg("t", N("x")), Asg("x", Bin("+", I(1), N("t"))), N("x")))), Call("f"))) &&
+			emit("x=x+1/t=x;x=t+1 (closure shadowing a captured variable)", "full",
+				[]T{Asg("mk", Fn(Ps("x"), Fn(P, Blk(Asg("x", Bin("+", N("x"), I(1))), N("x"))))), Asg("g", Call("mk", v)), L(Call("g"), Call("g"))},
+				[]T{Asg("mk", Fn(Ps("x"), Fn(P, Blk(Asg("t", N("x")), Asg("x", Bin("+", N("t"), I(1))), N("x"))))), Asg("g", Call("mk", v)), L(Call("g"), Call("g"))}) &&
 			emit("x=x+1 tail/non-tail (local)", "full", []T{Asg("f", Fn(Ps("p"), Blk(Asg("x", N("p")), Asg("x", Bin("+", N("x"), I(1)))))), Call("f", v)}, []T{Asg("f", Fn(Ps("p"), Blk(Asg("x", N("p")), Asg("x", Bin("+", N("x"), I(1))), N("x")))), Call("f", v)}) &&
 			emit("x=x+1 in loop/unrolled (local)", "full",
 				[]T{Asg("f", Fn(Ps("x"), Blk(Asg("k", I(0)), Wh(Bin("<", N("k"), I(2)), Blk(Asg("x", Bin("+", N("x"), I(1))), Asg("k", Bin("+", N("k"), I(1))))), N("x")))), Call("f", v)},
